@@ -554,3 +554,22 @@ def zbuf_rule(F, rep, rule):
             rep.ob(rule, "%s: the output buffer of a zstd compression holds compress_bound(input length)" % k.split("::", 1)[-1], ok, detail=why,
                    site=site_of(f, t), key="%s | %s | output buffer" % (rule, k))
     rep.floor(rule, n, 1, "zstd one-shot compress calls")
+    # the mirror image on the reading side: a one-shot decompression into a pre-sized buffer needs the size the frame declares
+    # (get_frame_content_size / find_decompressed_size / decompress_bound); a guessed expansion factor fails on highly
+    # compressible parts (long N runs compress thousands of times).  decode_all / streaming decoders grow as needed.
+    for k, f in sorted(F.funcs.items()):
+        if not re.search(r"^ragc_core::(zstd_pool|segment_compression|decompressor)::", k) or f.kind == "promoted" or f.d.get("test"):
+            continue
+        ex = None
+        for bi, t in f.calls():
+            if t.get("indirect") or not re.search(r"zstd(_safe)?::.*(DCtx.*::decompress\w*|bulk::.*decompress\w*|::decompress)$", t["callee"]) or t["callee"].endswith("decompress_bound"):
+                continue
+            ex = ex or Exprs(f)
+            sizings = []
+            for b2, t2 in f.calls():
+                if not t2.get("indirect") and re.search(r"vec::from_elem$|Vec::<T, A>::(resize|reserve|reserve_exact)$|Vec::<T>::with_capacity$", t2["callee"]):
+                    sizings.append(strip_tags(ex.operand(t2["args"][1] if not t2["callee"].endswith("with_capacity") else t2["args"][0])))
+            sizings += [strip_tags(ex.operand(a)) for a in t["args"][2:]]       # bulk::decompress(data, capacity)
+            declared = any(contains(sz, lambda x: isinstance(x, tuple) and x[0] == "call" and re.search(r"(get_frame_content_size|find_decompressed_size|decompress_bound|find_frame_compressed_size)$", x[1])) for sz in sizings)
+            rep.ob(rule, "%s: the output buffer of a one-shot zstd decompression is sized from what the frame declares" % k.split("::", 1)[-1], declared,
+                   detail="buffer sizes in this body: %s" % [fmt(sz)[:80] for sz in sizings][:3], site=site_of(f, t), key="%s | %s | decompress buffer" % (rule, k))
